@@ -42,6 +42,7 @@ type ckksConf struct {
 	logP     []int
 	logScale int
 	prec     uint // 0: the parameters' EncodingPrecision()
+	extra    bool // secondary precision variant: one step shallower in the quick tier
 }
 
 func (cf ckksConf) String() string { return cf.name }
@@ -63,7 +64,9 @@ func ckksConfigs(tier string) []ckksConf {
 			add("s80-prec80", []int{60, 60, 60, 60}, []int{60, 60}, 80, 0)
 			add("s80-prec256", []int{60, 60, 60, 60}, []int{60, 60}, 80, 256)
 			add("s80-prec53", []int{60, 60, 60, 60}, []int{60, 60}, 80, 53)
+			r[len(r)-1].extra = true
 			add("s45-prec64", []int{55, 45, 45}, []int{55}, 45, 64)
+			r[len(r)-1].extra = true
 		}
 	}
 	return r
@@ -154,9 +157,37 @@ const (
 	famZero
 	famTiny
 	famLarge
+	famThreshold
 )
 
-var famNames = []string{"mixed", "units", "zero", "tiny", "large"}
+var famNames = []string{"mixed", "units", "zero", "tiny", "large", "thresholds"}
+
+// thresholds returns the magnitudes v for which v*scale sits just below and just above the sizes at which the
+// fixed-point conversions change representation (2^31, 2^32 machine half-words, 2^53 float64 mantissa, 2^63 int64,
+// 2^64 uint64: SingleFloat64ToFixedPointCRT switches to big.Float at 2^64, decoders may take single-word fast
+// paths), plus one value just below Q/(2*scale), the top of the message space. Entries whose fixed-point image
+// would not fit below Q/2 are left out. Every value is an exact float64.
+func thresholds(scale *big.Float, Q *big.Int) (vals []float64, tags []string) {
+	sf, _ := scale.Float64()
+	top := new(big.Float).SetInt(Q)
+	top.Quo(top, scale)
+	topF, _ := top.Float64()
+	topF *= 0.49
+	for _, e := range []int{31, 32, 53, 63, 64} {
+		for _, side := range []int{-1, 1} {
+			x := (math.Exp2(float64(e)) + float64(side)*math.Exp2(float64(e-8))) / sf
+			if x < topF && !math.IsInf(x, 0) {
+				vals = append(vals, x)
+				tags = append(tags, fmt.Sprintf("2^%d%+d", e, side))
+			}
+		}
+	}
+	if !math.IsInf(topF, 0) && topF > 0 {
+		vals = append(vals, topF)
+		tags = append(tags, "0.49*Q/scale")
+	}
+	return
+}
 
 // family returns ln exact values (as float64 pairs, hence representable in every element type).
 func family(fam, ln int, scale *big.Float, Q *big.Int) ([]complex128, bool) {
@@ -184,6 +215,19 @@ func family(fam, ln int, scale *big.Float, Q *big.Int) ([]complex128, bool) {
 				s = -1
 			}
 			v[j] = complex(s*(0.4+float64(j))/sf, 0.6/sf)
+		}
+	case famThreshold:
+		// one threshold magnitude per entry, signs alternating (exact per coefficient in the coefficient domain)
+		th, _ := thresholds(scale, Q)
+		if len(th) == 0 {
+			return nil, false
+		}
+		for j := range v {
+			s := 1.0
+			if j%2 == 1 {
+				s = -1
+			}
+			v[j] = complex(s*th[j%len(th)], 0)
 		}
 	case famLarge:
 		// largest magnitude: Q/(4*scale) (coefficients of scale*IFFT(v) then stay below Q/4 in absolute value)
@@ -365,6 +409,8 @@ type ckksSpec struct {
 	inTy     int
 	fam      int
 	ln       int
+	thr      int        // famThreshold in the slot domain: index into thresholds()
+	thrDir   complex128 // ... and the direction (1, -1, i, -i) of the constant vector
 }
 
 func (s ckksSpec) String() string {
@@ -382,18 +428,9 @@ func dirty(p ring.Poly, qs []uint64) {
 // knownClass maps configurations on which a triaged finding sits to that finding's own signature, so that it
 // neither hides other violations of the same scenario nor gets confused with them.
 func (w *ckksWorld) knownClass(s ckksSpec) string {
-	n := 1 << s.logSlots
-	full := s.logSlots == w.maxL
-	switch {
-	case !s.ntt && !full:
-		return "C07/ckks/embed/sparse-and-not-NTT" // rlwe.NTTSparseAndMontgomery, IsNTT=false branch
-	case w.cf.rt == ring.ConjugateInvariant && n == 1 && !full:
-		return "C07/ckks/embed/conjugate-invariant-single-slot"
-	case w.prec > 53 && !s.ntt:
-		// ComplexArbitraryToFixedPointCRT stores value+q (in [q,2q)) for negative values; without the NTT nothing
-		// reduces them and the level-0 decoder (which compares against q/2 in uint64 arithmetic) returns garbage
-		return "C07/ckks/arbitrary/not-NTT-unreduced-residues"
-	}
+	// The five classes that carried findings (sparse packing with IsNTT=false, single slot in the conjugate-invariant
+	// ring, arbitrary precision with IsNTT=false, arbitrary-precision decoding in the conjugate-invariant ring,
+	// coefficient domain with IsNTT=false) were repaired in /repo (checks/c07/fixes F3-F8): no class is masked any more.
 	return ""
 }
 
@@ -402,6 +439,16 @@ func (w *ckksWorld) roundTrip(c *engine.Chooser, s ckksSpec) bool {
 	n := 1 << s.logSlots
 	Q := uni.QAtLevel(w.p.Parameters, s.level)
 	v, ok := family(s.fam, s.ln, s.scale, Q)
+	if s.fam == famThreshold {
+		// slot domain: the constant vector c*(1,...,1) has the single non-zero coefficient c*scale (at X^0 for a real
+		// c, in the imaginary half for c*i), so the threshold is met exactly by one coefficient of the plaintext
+		th, _ := thresholds(s.scale, Q)
+		if ok = s.thr < len(th); ok {
+			for j := range v {
+				v[j] = complex(th[s.thr], 0) * s.thrDir
+			}
+		}
+	}
 	if !ok {
 		c.Skip("scale too large for this level")
 		return false
@@ -413,6 +460,9 @@ func (w *ckksWorld) roundTrip(c *engine.Chooser, s ckksSpec) bool {
 	}
 	lim := newF().SetInt(Q)
 	lim.Quo(lim, newF().SetInt64(4))
+	if s.fam == famThreshold {
+		lim.Mul(lim, newF().SetFloat64(1.99)) // a single coefficient: the whole range below Q/2 is admissible
+	}
 	if newF().Mul(maxv, s.scale).Cmp(lim) > 0 {
 		c.Skip("scale too large for this level")
 		return false
@@ -461,14 +511,11 @@ func (w *ckksWorld) roundTrip(c *engine.Chooser, s ckksSpec) bool {
 		}
 	}
 	// decode into every element type, plain and public
-	if w.cf.rt == ring.ConjugateInvariant && w.prec > 53 && w.knownClass(s) == "" {
-		// triaged finding: polyToComplexCRT/NoCRT (arbitrary precision, conjugate-invariant ring) subtracts from the
-		// stale imaginary parts of the encoder's internal buffer; the decode error then depends on the previous use
-		// of the encoder. Own signature; the encode oracles above are unaffected.
-		cls = "C07/ckks/arbitrary/conjugate-invariant-decode-stale-buffer"
-	}
 	for outTy := 0; outTy < 4; outTy++ {
 		for _, logprec := range []float64{0, 10, 25} {
+			if logprec == 25 && isRealType(outTy) {
+				continue // the finest public precision with the complex output types only
+			}
 			out := newOutput(outTy, n)
 			w.poison()
 			err, pan := uni.Try(func() error {
@@ -571,6 +618,9 @@ func ckksShapeScenario(cf ckksConf, depth, scaleIdx int) engine.Scenario {
 	if depth == 2 {
 		name += fmt.Sprintf("/scale%d", scaleIdx)
 	}
+	if depth == 1 {
+		name += fmt.Sprintf("/values%d", scaleIdx) // depth 1: the second index is the value family (spreads the work)
+	}
 	return engine.Scenario{Name: name, Bound: -1, Fn: func(c *engine.Chooser) {
 		w := getCkksWorld(cf)
 		s := ckksSpec{scale: pow2(cf.logScale), scaleTag: "default", fam: famMixed}
@@ -578,8 +628,11 @@ func ckksShapeScenario(cf ckksConf, depth, scaleIdx int) engine.Scenario {
 			scs, tags := w.scaleOptions()
 			s.scale, s.scaleTag = scs[scaleIdx], tags[scaleIdx]
 		}
-		if depth >= 1 {
+		if depth == 2 {
 			s.fam = c.Choose(5, "values")
+		}
+		if depth == 1 {
+			s.fam = scaleIdx
 		}
 		s.logSlots = w.maxL - c.Choose(w.maxL+1, "logSlots") // choice 0 = full packing
 		s.level = w.L - c.Choose(w.L+1, "level")
@@ -616,6 +669,39 @@ func ckksValueScenario(cf ckksConf) engine.Scenario {
 	}}
 }
 
+// thresholdScenario: slot domain, constant vectors c*(1,..,1)*dir whose single plaintext coefficient c*scale sits
+// on either side of 2^31, 2^32, 2^53, 2^63, 2^64 and just below Q/2, for every (scale, level) that admits them, full
+// and single-slot packing, every output type, Decode and DecodePublic (via roundTrip).
+func ckksThresholdScenario(cf ckksConf) engine.Scenario {
+	name := "ckks/" + cf.name + "/thresholds"
+	return engine.Scenario{Name: name, Bound: -1, Fn: func(c *engine.Chooser) {
+		w := getCkksWorld(cf)
+		scs, tags := w.scaleOptions()
+		si := c.Choose(len(scs), "scale")
+		s := ckksSpec{scale: scs[si], scaleTag: tags[si], ntt: true, fam: famThreshold}
+		s.level = w.L - c.Choose(w.L+1, "level")
+		s.thr = c.Choose(11, "threshold")
+		s.thrDir = []complex128{1, -1, 1i, -1i}[c.Choose(4, "direction")]
+		s.logSlots = []int{w.maxL, 0}[c.Choose(2, "logSlots")]
+		s.inTy = []int{tyC128, tyBigC}[c.Choose(2, "inType")]
+		s.ln = 1 << s.logSlots
+		if cf.rt == ring.ConjugateInvariant && imag(s.thrDir) != 0 {
+			c.Skip("imaginary direction in the conjugate-invariant ring")
+			return
+		}
+		_, ttags := thresholds(s.scale, uni.QAtLevel(w.p.Parameters, s.level))
+		if s.thr < len(ttags) {
+			c.Cover("ckks-threshold", ttags[s.thr])
+			c.Note("threshold %s, direction %v", ttags[s.thr], s.thrDir)
+		}
+		w.cover(c, s)
+		if w.roundTrip(c, s) {
+			c.Outcome(name, s.String(), s.thr, s.thrDir)
+		}
+		c.Count(13)
+	}}
+}
+
 // coeffScenario: coefficient domain (IsBatched=false): coefficient k = round(v_k*scale), decode = coefficient/scale.
 func ckksCoeffScenario(cf ckksConf) engine.Scenario {
 	name := "ckks/" + cf.name + "/coeff-domain"
@@ -624,7 +710,7 @@ func ckksCoeffScenario(cf ckksConf) engine.Scenario {
 		scs, tags := w.scaleOptions()
 		si := c.Choose(len(scs), "scale")
 		scale := scs[si]
-		fam := c.Choose(5, "values")
+		fam := c.Choose(6, "values")
 		level := w.L - c.Choose(w.L+1, "level")
 		ntt := c.Choose(2, "ntt") == 0
 		bigIn := c.Bool("bigfloat")
@@ -639,6 +725,10 @@ func ckksCoeffScenario(cf ckksConf) engine.Scenario {
 		c.Cover("ckks-coeff-in", map[bool]string{true: "[]*big.Float", false: "[]float64"}[bigIn])
 		lim := newF().SetInt(Q)
 		lim.Quo(lim, newF().SetInt64(4))
+		if fam == famThreshold {
+			lim.Mul(lim, newF().SetFloat64(1.99))
+			c.Cover("ckks-threshold", "coeff-domain")
+		}
 		for _, x := range vc {
 			if newF().Mul(fFrom(math.Abs(real(x))), scale).Cmp(lim) > 0 {
 				c.Skip("scale too large for this level")
@@ -647,9 +737,6 @@ func ckksCoeffScenario(cf ckksConf) engine.Scenario {
 		}
 		desc := fmt.Sprintf("level=%d scale=%s ntt=%v bigfloat=%v values=%s len=%d", level, tags[si], ntt, bigIn, famNames[fam], ln)
 		mk := func(what string) string {
-			if !ntt {
-				return "C07/ckks/coeff-domain/not-NTT" // triaged: Encode always applies the NTT, Decode honours IsNTT
-			}
 			return "C07/ckks/coeff-domain/" + what
 		}
 		pt := ckks.NewPlaintext(w.p, level)
@@ -687,9 +774,6 @@ func ckksCoeffScenario(cf ckksConf) engine.Scenario {
 				s2 := mk("encode-value")
 				if k >= ln {
 					s2 = mk("unspecified-coefficient-not-zero")
-					if bigIn && ntt {
-						s2 = "C07/ckks/coeff-domain/bigfloat-short-vector-tail-not-cleared" // triaged: BigFloatToFixedPointCRT
-					}
 				}
 				failD(c, s2, "%s: coefficient %d is %s, want round(%s)", desc, k, got.Text('g', 25), exp.Text('g', 25))
 				return
@@ -763,10 +847,6 @@ func ckksProductScenario(cf ckksConf) engine.Scenario {
 		level := w.L
 		n := 1 << logSlots
 		scale := pow2(cf.logScale)
-		if cf.rt == ring.ConjugateInvariant && n == 1 && logSlots != w.maxL {
-			c.Skip("covered by the single-slot finding of the shape scenario")
-			return
-		}
 		c.Cover("ckks-product", fmt.Sprintf("logn%d", cf.logN))
 		Q := uni.QAtLevel(w.p.Parameters, level)
 		va, _ := family(famA, n, scale, Q)
@@ -913,14 +993,6 @@ func ckksEmbedScenario(cf ckksConf) engine.Scenario {
 		bigScale := c.Bool("default-scale")
 		inTy := c.Choose(4, "inType")
 		n := 1 << logSlots
-		if cf.rt == ring.ConjugateInvariant && n == 1 && logSlots != w.maxL {
-			c.Skip("covered by the single-slot finding of the shape scenario")
-			return
-		}
-		if !ntt && logSlots != w.maxL {
-			c.Skip("covered by the sparse-and-not-NTT finding of the shape scenario")
-			return
-		}
 		scale := pow2(30)
 		if bigScale {
 			scale = pow2(cf.logScale)
@@ -1001,15 +1073,36 @@ const fullProductLogN = 4
 func ckksScenarios(tier string) []engine.Scenario {
 	var scs []engine.Scenario
 	for _, cf := range ckksConfigs(tier) {
+		depth := 0
 		switch {
-		case (tier == "thorough" && cf.logN <= 6) || cf.logN <= fullProductLogN:
+		case tier == "thorough" && cf.logN <= 6:
+			depth = 2
+		case tier == "thorough":
+			depth = 1
+		default:
+			// quick: complete product at LogN 4, without the scale axis at LogN 5, shape axes only at LogN 6; the
+			// secondary precision variants one step shallower
+			depth = fullProductLogN + 2 - cf.logN
+			if cf.extra {
+				depth--
+			}
+			if depth < 0 {
+				depth = 0
+			}
+		}
+		if depth == 2 {
 			for si := 0; si < 5; si++ {
 				scs = append(scs, ckksShapeScenario(cf, 2, si))
 			}
-		case cf.logN == fullProductLogN+1 || tier == "thorough":
-			scs = append(scs, ckksShapeScenario(cf, 1, 0))
-		default:
+		} else if depth == 1 {
+			for f := 0; f < 5; f++ {
+				scs = append(scs, ckksShapeScenario(cf, 1, f))
+			}
+		} else {
 			scs = append(scs, ckksShapeScenario(cf, 0, 0))
+		}
+		if (cf.logN == 4 && !cf.extra) || tier == "thorough" {
+			scs = append(scs, ckksThresholdScenario(cf))
 		}
 		scs = append(scs, ckksValueScenario(cf), ckksCoeffScenario(cf), ckksProductScenario(cf), ckksFFTScenario(cf), ckksEmbedScenario(cf))
 	}
@@ -1019,7 +1112,7 @@ func ckksScenarios(tier string) []engine.Scenario {
 func expect(tier string) []string {
 	e := []string{
 		"bgv-domain=batched", "bgv-domain=coeff", "bgv-type=int64", "bgv-type=uint64", "bgv-level=0", "bgv-len=0", "bgv-len=1", "bgv-len=full",
-		"bgv-scale=1", "bgv-scale=t-1", "bgv-scale=(t+1)/2", "bgv-scale=q1 mod t", "bgv-gap=1", "bgv-gap=2", "bgv-gap=4", "bgv-gap=8", "bgv-every-scale=all-units", "bgv-every-scale=spread", "ckks-coeff-public=judged-closeness-only",
+		"bgv-scale=1", "bgv-scale=t-1", "bgv-scale=(t+1)/2", "bgv-scale=q1 mod t", "bgv-gap=1", "bgv-gap=2", "bgv-gap=4", "bgv-gap=8", "bgv-every-scale=all-units", "bgv-scale-arithmetic=residues-above-2^32", "bgv-every-scale=spread", "ckks-coeff-public=judged-closeness-only", "ckks-threshold=coeff-domain", "ckks-threshold=2^31-1", "ckks-threshold=2^32+1", "ckks-threshold=2^53+1", "ckks-threshold=2^63-1", "ckks-threshold=2^63+1", "ckks-threshold=2^64-1", "ckks-threshold=2^64+1", "ckks-threshold=0.49*Q/scale",
 		"bgv-exhaust=single-slot", "bgv-exhaust=alphabet3", "bgv-product=ringT", "bgv-product=ringQ",
 		"ckks-logn=4", "ckks-logn=5", "ckks-logn=6", "ckks-ring=standard", "ckks-ring=conjugate-invariant", "ckks-path=float64", "ckks-path=arbitrary",
 		"ckks-slots=full", "ckks-slots=1", "ckks-slots=sparse", "ckks-level=0", "ckks-ntt=true", "ckks-ntt=false", "ckks-domain=coeff",
